@@ -379,6 +379,32 @@ def build_queries(tier):
     add('reverse_iast', lambda w: pgi.reverse_iast([w['mL'], w['mT']], [0.5, 0.5], 0.6))
     add('iast_binary_svp', lambda w: pgi.iast_binary_svp([w['mL'], w['mT']], [0.5, 0.5], [0.2, 0.4, 0.8]))
     add('iast_binary_vle', lambda w: pgi.iast_binary_vle([w['mL'], w['mL2']], 0.5, npoints=4))
+    # error paths: a query that is refused (possibly after it started working) must leave everything untouched as well
+    add('ERR whittaker(point, unknown model)', lambda w: pgc.enthalpy_sorption_whittaker(w['pco2'], model='Tooth'))
+    add('ERR whittaker(point, Henry)', lambda w: pgc.enthalpy_sorption_whittaker(w['pco2'], model='Henry'))
+    add('ERR whittaker(model in bar)', lambda w: pgc.enthalpy_sorption_whittaker(w['mL2'], loading=[1.0]))
+    add('ERR model_iso(unknown model)', lambda w: pgm.model_iso(w['p'], model='NoSuchModel'))
+    add('ERR model_iso(unknown in list)', lambda w: pgm.model_iso(w['p'], model=['Henry', 'NoSuchModel']))
+    add('ERR model_iso(bad bounds)', lambda w: pgm.model_iso(w['p'], model='Langmuir', param_bounds={'K': (5.0, 1.0), 'n_m': (0.5, 3.0)}))
+    add('ERR area_BET(empty window)', lambda w: pgc.area_BET(w['p'], p_limits=(0.41, 0.42)))
+    add('ERR area_langmuir(empty window)', lambda w: pgc.area_langmuir(w['p'], p_limits=(0.41, 0.42)))
+    add('ERR t_plot(unknown thickness model)', lambda w: pgc.t_plot(w['p'], thickness_model='nope'))
+    add('ERR alpha_s(bad reducing pressure)', lambda w: pgc.alpha_s(w['p'], w['ref'], reducing_pressure=5.0))
+    add('ERR alpha_s(unknown reference area)', lambda w: pgc.alpha_s(w['p'], w['ref'], reference_area='nope'))
+    add('ERR psd_mesoporous(unknown model)', lambda w: pgc.psd_mesoporous(w['p'], psd_model='nope'))
+    add('ERR psd_mesoporous(unknown geometry)', lambda w: pgc.psd_mesoporous(w['p'], pore_geometry='nope'))
+    add('ERR psd_microporous(unknown material)', lambda w: pgc.psd_microporous(w['p'], psd_model='HK', material_model='nope'))
+    add('ERR psd_dft(no kernel file)', lambda w: pgc.psd_dft(w['p'], kernel='/nonexistent/kernel.csv'))
+    add('ERR isosteric_enthalpy(points outside)', lambda w: pgc.isosteric_enthalpy(w['Tset'], loading_points=[0.5, 50.0]))
+    add('ERR isosteric_enthalpy(one isotherm)', lambda w: pgc.isosteric_enthalpy(w['Tset'][:1], loading_points=[0.5]))
+    add('ERR initial_enthalpy_point(no such column)', lambda w: pgc.initial_enthalpy_point(w['cal'], 'nokey'))
+    add('ERR iast_point(wrong length)', lambda w: pgi.iast_point([w['pco2'], w['pch4']], [0.3, 1.2, 0.5]))
+    add('ERR iast_point(points, outside range)', lambda w: pgi.iast_point([w['pco2'], w['pch4']], [30.0, 120.0]))
+    add('ERR loading_at(unknown unit)', lambda w: w['p'].loading_at(0.25, loading_unit='bogus'))
+    add('ERR pressure(unknown unit)', lambda w: w['p'].pressure(pressure_unit='bogus'))
+    add('ERR loading(fraction, no material basis)', lambda w: w['p'].loading(loading_basis='fraction', material_basis='bogus'))
+    add('ERR spreading_pressure_at(unknown mode)', lambda w: w['p'].spreading_pressure_at(0.25, pressure_mode='bogus'))
+    add('ERR to_xl(unwritable path)', lambda w: w['p'].to_xl('/nonexistent/dir/x.xls'))
     heavy = collections.OrderedDict()
     heavy['psd_dft'] = lambda w: pgc.psd_dft(w['p'], branch='ads', p_limits=(0.06, 0.85))
     heavy['psd_microporous(RY,sphere)'] = lambda w: pgc.psd_microporous(w['p'], psd_model='RY', pore_geometry='sphere', p_limits=(0, 0.4))
